@@ -328,6 +328,14 @@ class CoqCases:
         d = os.path.join(self.ctx.bdir, "cases_" + self.name)
         shutil.rmtree(d, ignore_errors=True)
         os.makedirs(d)
+        # the compiled form of every static module the cases import must be current (the Properties target
+        # built by check_theorems need not depend on the executable wrappers)
+        mods = sorted(set(re.findall(r"EmbossV\.((?:[A-Za-z0-9_]+\.)*[A-Za-z0-9_]+)", "EmbossV.Lib.Cases " + self.header)))
+        targets = [m.replace(".", "/") + ".vo" for m in mods if os.path.exists(os.path.join(THEORIES, m.replace(".", "/") + ".v"))]
+        if targets:
+            rc, out = coq_make(targets)
+            if rc != 0:
+                raise CoqEvalError("building %s failed: %s" % (" ".join(targets), out[-1500:]))
         shards = [cases[i:i + self.shard] for i in range(0, len(cases), self.shard)]
         paths = []
         for k, sh_cases in enumerate(shards):
